@@ -207,6 +207,9 @@ class Interp:
             bare = c.split(":")[1]
             if (bare, name) in SEEDS:
                 t, nullable = SEEDS[(bare, name)]
+                if isinstance(t, tuple) and t[:1] == ("cls",) and t[1] in self._abstract and not self._abstract[t[1]]:
+                    # the context has no such class (the MQTT transports never create a protocol): always None
+                    return "NoneType", True
                 return self.norm_ty(t), nullable
         return None, False
 
@@ -762,6 +765,8 @@ class Interp:
                 if (b, name) in ALIAS_ATTRS and "GW" in st.roots:
                     gw = st.roots["GW"]
                     return outs + self.load_attr(st, gw, ALIAS_ATTRS[(b, name)], node)
+            if at == "NoneType":
+                return outs + [("val", st, Const(None))]
             if isinstance(base, Obj):
                 return outs + [("val", st, Unknown(at, label=f"{base.oid}.{name}", nullable=nullable))]
             return outs + [("val", st, Sym(("attr", base.key(), name), at, nullable))]
@@ -1457,6 +1462,9 @@ class Interp:
             outs: List[Outcome] = []
             import asyncio
 
+            if isinstance(v, V) and ("cancelled", v.key()) in s.facts:
+                # awaiting a task whose cancel() was just requested re-raises CancelledError in the awaiter
+                return [self.raise_(s, asyncio.CancelledError, node, "awaiting a task that was just cancelled")]
             outs.append(self.raise_(s.copy(), asyncio.CancelledError, node, "await may be cancelled"))
             if isinstance(v, FutureV):
                 self.emit(s, "await", v.kind, node, recv=v.fn, args=v.args)
